@@ -360,7 +360,7 @@ class SFTPClient(BaseSFTP, ClosingContextManager):
         imode = 0
         if ("r" in mode) or ("+" in mode):
             imode |= SFTP_FLAG_READ
-        if ("w" in mode) or ("+" in mode) or ("a" in mode):
+        if ("w" in mode) or ("+" in mode) or ("a" in mode) or ("x" in mode):
             imode |= SFTP_FLAG_WRITE
         if "w" in mode:
             imode |= SFTP_FLAG_CREATE | SFTP_FLAG_TRUNC
